@@ -30,6 +30,7 @@ CONSTANTS KEEP,          \* MIN_BLOCKS_TO_KEEP (288)
           LockNames,
           ConnectChoices,   \* set of <<n, class>> offered to Connect
           ReorgChoices,     \* set of <<depth, class>> offered to Reorg
+          SwapChoices,      \* set of classes offered to Swap (two blocks delivered in swapped order)
           MaxTip, MaxSteps
 
 Min(a, b) == IF a < b THEN a ELSE b
@@ -157,6 +158,18 @@ ReorgOp(S, d, c) ==
       r3 == ConnectIds(r2, first, d + 1)
   IN Then(r3, LAMBDA T : PruneCheck(T, 0))
 
+\* headers-first download out of order: the headers of the next two blocks, then the body of the second, then the body of the first. The
+\* second is stored (and its file info updated) before the first: within a file, blocks are not in height order.
+SwapOp(S, c) ==
+  LET h == TipH(S)
+      first == Len(S.blocks) + 1
+      r1 == StoreBlock([S EXCEPT !.bestH = Max(S.bestH, h + 2)], h + 2, c)
+      r2 == Then(r1, LAMBDA T : PruneCheck(T, 0))                      \* ActivateBestChain finds nothing to connect; FlushStateToDisk(PERIODIC)
+      r3 == Then(r2, LAMBDA T : StoreBlock(T, h + 1, c))
+      r4 == Then(r3, LAMBDA T : ConnectTip(T, first + 1))
+      r5 == Then(r4, LAMBDA T : ConnectTip(T, first))
+  IN Then(r5, LAMBDA T : PruneCheck(T, 0))
+
 \* ---------------------------------------------------------------- specification
 VARIABLES st, ev, steps, lastAct, lastRes
 vars == <<st, ev, steps, lastAct, lastRes>>
@@ -168,6 +181,8 @@ Connect(n, c) == /\ TipH(st) + n <= MaxTip
                  /\ Apply(ConnectN([s |-> st, ev |-> <<>>], n, c), <<"connect", n, c>>)
 Reorg(d, c) == /\ d >= 1 /\ d <= TipH(st) /\ TipH(st) + 1 <= MaxTip
                /\ Apply(ReorgOp(st, d, c), <<"reorg", d, c>>)
+Swap(c) == /\ TipH(st) + 2 <= MaxTip
+           /\ Apply(SwapOp(st, c), <<"swap", c>>)
 \* heights worth trying: around every boundary the rules have
 FileEdges(S) == UNION {{S.files[f].hl - 1, S.files[f].hl, S.files[f].hl + 1} : f \in {g \in 1..NFiles(S) : S.files[g].size > 0}}
 ManualHeights(S) == ({1, TipH(S) - KEEP - 1, TipH(S) - KEEP, TipH(S) - KEEP + 1, TipH(S)} \cup FileEdges(S)) \cap 1..(TipH(S) + 1)
@@ -184,6 +199,7 @@ DeleteLock(n) == /\ st.locks[n] # NoLock
 Next == /\ steps < MaxSteps
         /\ \/ \E p \in ConnectChoices : Connect(p[1], p[2])
            \/ \E p \in ReorgChoices : Reorg(p[1], p[2])
+           \/ \E c \in SwapChoices : Swap(c)
            \/ \E h \in ManualHeights(st) : ManualPrune(h)
            \/ AutoPrune
            \/ \E n \in LockNames : \E h \in LockHeights(st) : UpdateLock(n, h)
@@ -196,6 +212,7 @@ SimNext == /\ steps < MaxSteps
            /\ IF steps < 2 THEN \E p \in Pick({q \in ConnectChoices : q[1] >= 100}) : Connect(p[1], p[2])
               ELSE \/ \E p \in Pick(ConnectChoices) : Connect(p[1], p[2])
                    \/ \E p \in Pick(ReorgChoices) : Reorg(p[1], p[2])
+                   \/ \E c \in Pick(SwapChoices) : Swap(c)
                    \/ \E h \in Pick(ManualHeights(st)) : ManualPrune(h)
                    \/ \E h \in Pick(ManualHeights(st) \cap ((TipH(st) - KEEP - 40)..(TipH(st) - KEEP + 1))) : ManualPrune(h)
                    \/ AutoPrune
@@ -236,6 +253,8 @@ FileInfoExact == \A f \in 1..NFiles(st) :
    ELSE LET H == HeightsIn(st, f - 1) IN
         /\ st.files[f].nb = Cardinality({i \in st.ids[f].lo .. st.ids[f].hi : TRUE}) + (IF f = 1 THEN 1 ELSE 0)
         /\ (H # {} => st.files[f].hf = SetMin(H) /\ \A x \in H : x <= st.files[f].hl /\ st.files[f].hl \in H)
+\* what the prune rules rely on: the height range in a file's info covers every block stored in the file
+FileInfoCovers == \A f \in 1..NFiles(st) : ~st.gone[f] => \A x \in HeightsIn(st, f - 1) : st.files[f].hf <= x /\ x <= st.files[f].hl
 CursorAlive == ~st.gone[NFiles(st)]
 \* a block of the last KEEP blocks of the active chain always has its data
 RecentHaveData == \A h \in 2..TipH(st) : h > TipH(st) - KEEP => ~st.gone[st.blocks[st.chain[h]].f + 1]
